@@ -1,7 +1,7 @@
 (* C14 - a channel always answers and recovers when the peer comes back.
    Statements only: each theorem is closed by [exact] of a lemma proved in Proofs/Reconnect.v.
 
-   Reading guide.  [run_with cpr sreq mkpr fuel is_lazy lat net0 h] builds a channel (lazy:
+   Reading guide.  [run_with cpr sreq fuel is_lazy lat prl net0 h] builds a channel (lazy:
    Channel::new, eager: Channel::connect = ready_oneshot on the fresh Reconnect), then plays the
    history [h] over {Env (ConnectFails r), Env ConnectSucceeds, Env ConnectionDropped, Calls k} against
    the transcription of Reconnect::{poll_ready, call} driven by the tower Buffer worker.  [h] is
@@ -9,8 +9,9 @@
    calls issued together, i.e. queued in the Buffer and served by the worker one after the other
    without a quiescent point in between ([Call] = [Calls 1]); [lat] is the
    number of Pending polls of every connect future; [net0] the initial reachability.  hyper's
-   SendRequest ([cpr], [sreq]) and the connector's poll_ready ([mkpr]) are ASSUMED to satisfy
-   [stack_contract]; the Buffer worker protocol and the waker contract are built into [serve].
+   SendRequest ([cpr], [sreq]) is ASSUMED to satisfy [stack_contract]; the connector is part of the
+   modelled environment: its poll_ready answers Pending [prl] times per cycle, and a `call` without
+   a Ready poll_ready since the previous call is an explicit outcome (ConnectorMisuse / RoMisuse); the Buffer worker protocol and the waker contract are built into [serve].
    [EnvRacyDrop false] (a call racing with a dying connection) is outside the property's
    quantifier: theorems that need quiescent points say [quiescent h = true].
    Two further connector outcomes are modelled as the real stack behaves (audit M4):
@@ -30,11 +31,24 @@ Open Scope N_scope.
 (* Reconnect::call is never reached outside Connected (its panic!), a finished connect future is
    never polled again, neither while building the channel nor in any call of any history *)
 Theorem c14_call_never_panics :
-  forall cpr sreq mkpr, stack_contract cpr sreq mkpr ->
-  forall fuel is_lazy lat net0, enough_fuel lat fuel -> forall h,
-    r_eager (run_with cpr sreq mkpr fuel is_lazy lat net0 h) <> Some RoPanic /\
-    Forall (fun c => rec_outcome c <> Panic) (r_calls (run_with cpr sreq mkpr fuel is_lazy lat net0 h)).
+  forall cpr sreq, stack_contract cpr sreq ->
+  forall fuel is_lazy lat prl net0, enough_fuel lat prl fuel -> forall h,
+    r_eager (run_with cpr sreq fuel is_lazy lat prl net0 h) <> Some RoPanic /\
+    Forall (fun c => rec_outcome c <> Panic) (r_calls (run_with cpr sreq fuel is_lazy lat prl net0 h)).
 Proof. exact call_never_panics. Qed.
+
+(* the tower Service protocol towards the connector is respected: the connector (a strict one:
+   tower::limit::ConcurrencyLimit panics otherwise) is only ever `call`ed after its poll_ready has
+   returned Ready since its previous call - by the eager connect and in every call of every
+   history, whatever number of Pending answers ([prl]) its poll_ready gives first.  Every reconnect
+   goes through State::Idle, the only place where make_service is invoked. *)
+Theorem c14_connector_protocol_respected :
+  forall cpr sreq, stack_contract cpr sreq ->
+  forall fuel is_lazy lat prl net0, enough_fuel lat prl fuel -> forall h,
+    r_eager (run_with cpr sreq fuel is_lazy lat prl net0 h) <> Some RoMisuse /\
+    Forall (fun c => rec_outcome c <> ConnectorMisuse) (r_calls (run_with cpr sreq fuel is_lazy lat prl net0 h)) /\
+    misuses (run_with cpr sreq fuel is_lazy lat prl net0 h) = 0.
+Proof. exact connector_protocol_respected. Qed.
 
 (* every call completes with a definite result: never stuck (the fuel [lat + 4] of the drivers is
    never exhausted, for any larger fuel the result is the same by [c14_run_characterised]), one
@@ -42,69 +56,69 @@ Proof. exact call_never_panics. Qed.
    points the outcome is a response or a ConnectError (connector refused / handshake failed),
    which Status::from_error maps to UNAVAILABLE *)
 Theorem c14_call_definite :
-  forall cpr sreq mkpr, stack_contract cpr sreq mkpr ->
-  forall fuel is_lazy lat net0, enough_fuel lat fuel -> forall h,
-    r_eager (run_with cpr sreq mkpr fuel is_lazy lat net0 h) <> Some RoHang /\
-    r_eager (run_with cpr sreq mkpr fuel is_lazy lat net0 h) <> Some RoPanic /\
+  forall cpr sreq, stack_contract cpr sreq ->
+  forall fuel is_lazy lat prl net0, enough_fuel lat prl fuel -> forall h,
+    r_eager (run_with cpr sreq fuel is_lazy lat prl net0 h) <> Some RoHang /\
+    r_eager (run_with cpr sreq fuel is_lazy lat prl net0 h) <> Some RoPanic /\
     (built is_lazy net0 ->
-     length (r_calls (run_with cpr sreq mkpr fuel is_lazy lat net0 h)) = count_calls h) /\
+     length (r_calls (run_with cpr sreq fuel is_lazy lat prl net0 h)) = count_calls h) /\
     Forall (fun c => rec_outcome c <> OutOfFuel /\ rec_outcome c <> Panic /\
-                     rec_outcome c <> WorkerClosed /\
+                     rec_outcome c <> WorkerClosed /\ rec_outcome c <> ConnectorMisuse /\
                      forall e, rec_outcome c <> ServiceFailed e)
-           (r_calls (run_with cpr sreq mkpr fuel is_lazy lat net0 h)) /\
+           (r_calls (run_with cpr sreq fuel is_lazy lat prl net0 h)) /\
     (quiescent h = true -> plain h = true -> plain_net net0 = true ->
      Forall (fun c => rec_outcome c = Response \/
                       exists e, rec_outcome c = ConnectErr e /\
                                 outcome_code (rec_outcome c) = Some Code_Unavailable)
-            (r_calls (run_with cpr sreq mkpr fuel is_lazy lat net0 h))).
+            (r_calls (run_with cpr sreq fuel is_lazy lat prl net0 h))).
 Proof. exact call_definite. Qed.
 
 (* every outcome of every history (racy steps, handshake faults, batches) with its gRPC code *)
 Theorem c14_call_outcome_classes :
-  forall cpr sreq mkpr, stack_contract cpr sreq mkpr ->
-  forall fuel is_lazy lat net0, enough_fuel lat fuel -> forall h,
+  forall cpr sreq, stack_contract cpr sreq ->
+  forall fuel is_lazy lat prl net0, enough_fuel lat prl fuel -> forall h,
     Forall (fun c => rec_outcome c = Response \/
                      (rec_outcome c = Canceled /\ outcome_code (rec_outcome c) = Some Code_Cancelled) \/
                      (exists e, rec_outcome c = ConnectErr e /\
                                 outcome_code (rec_outcome c) = Some Code_Unavailable))
-           (r_calls (run_with cpr sreq mkpr fuel is_lazy lat net0 h)).
+           (r_calls (run_with cpr sreq fuel is_lazy lat prl net0 h)).
 Proof. exact call_outcome_classes. Qed.
 
 (* the whole run is a function of the environment only (spec_result never looks at Reconnect's
    state and has no fuel): in particular more fuel changes nothing *)
 Theorem c14_run_characterised :
-  forall cpr sreq mkpr, stack_contract cpr sreq mkpr ->
-  forall fuel is_lazy lat net0, enough_fuel lat fuel -> forall h,
-    run_with cpr sreq mkpr fuel is_lazy lat net0 h = spec_result is_lazy net0 h.
+  forall cpr sreq, stack_contract cpr sreq ->
+  forall fuel is_lazy lat prl net0, enough_fuel lat prl fuel -> forall h,
+    run_with cpr sreq fuel is_lazy lat prl net0 h = spec_result is_lazy net0 h.
 Proof. exact R_spec. Qed.
 
 (* an eager channel whose first connect is refused: connect() itself returns that error after
    exactly one connector invocation, no channel exists, nothing is deferred to a call *)
 Theorem c14_eager_initial_failure_immediate :
-  forall cpr sreq mkpr, stack_contract cpr sreq mkpr ->
-  forall fuel lat reason h, enough_fuel lat fuel ->
-    run_with cpr sreq mkpr fuel false lat (Down reason) h =
+  forall cpr sreq, stack_contract cpr sreq ->
+  forall fuel lat prl reason h, enough_fuel lat prl fuel ->
+    run_with cpr sreq fuel false lat prl (Down reason) h =
       mkRun (Some (RoErr (mkErr 1 reason Refused))) [] 1 None.
 Proof. exact eager_initial_failure_immediate. Qed.
 
 (* the same when the transport connects but the HTTP/2 handshake fails *)
 Theorem c14_eager_handshake_failure_immediate :
-  forall cpr sreq mkpr, stack_contract cpr sreq mkpr ->
-  forall fuel lat h, enough_fuel lat fuel ->
-    run_with cpr sreq mkpr fuel false lat UpDead h =
+  forall cpr sreq, stack_contract cpr sreq ->
+  forall fuel lat prl h, enough_fuel lat prl fuel ->
+    run_with cpr sreq fuel false lat prl UpDead h =
       mkRun (Some (RoErr (mkErr 1 0 Handshake))) [] 1 None.
 Proof. exact eager_handshake_failure_immediate. Qed.
 
 Theorem c14_eager_initial_success :
-  forall cpr sreq mkpr, stack_contract cpr sreq mkpr ->
-  forall fuel lat h, enough_fuel lat fuel ->
-    r_eager (run_with cpr sreq mkpr fuel false lat Up h) = Some RoOk.
+  forall cpr sreq, stack_contract cpr sreq ->
+  forall fuel lat prl h, enough_fuel lat prl fuel ->
+    r_eager (run_with cpr sreq fuel false lat prl Up h) = Some RoOk.
 Proof. exact eager_initial_success. Qed.
 
 Theorem c14_lazy_reports_nothing_at_construction :
-  forall cpr sreq mkpr, stack_contract cpr sreq mkpr ->
-  forall fuel is_lazy lat net0, enough_fuel lat fuel -> forall h,
-    is_lazy = true -> r_eager (run_with cpr sreq mkpr fuel is_lazy lat net0 h) = None.
+  forall cpr sreq, stack_contract cpr sreq ->
+  forall fuel is_lazy lat prl net0, enough_fuel lat prl fuel -> forall h,
+    is_lazy = true -> r_eager (run_with cpr sreq fuel is_lazy lat prl net0 h) = None.
 Proof. exact lazy_reports_nothing_at_construction. Qed.
 
 (* that error is UNAVAILABLE (find_status_in_source_chain: ConnectError) *)
@@ -116,11 +130,11 @@ Proof. exact connect_error_is_unavailable. Qed.
 (* once the endpoint is reachable again (whatever happened before: [h1] is arbitrary), the next
    call on the same channel succeeds *)
 Theorem c14_recovers_without_rebuild :
-  forall cpr sreq mkpr, stack_contract cpr sreq mkpr ->
-  forall fuel is_lazy lat net0, enough_fuel lat fuel -> forall h1 h2,
+  forall cpr sreq, stack_contract cpr sreq ->
+  forall fuel is_lazy lat prl net0, enough_fuel lat prl fuel -> forall h1 h2,
     built is_lazy net0 -> quiescent h1 = true -> net_after net0 h1 = Up ->
     exists b a,
-      nth_error (r_calls (run_with cpr sreq mkpr fuel is_lazy lat net0 (h1 ++ Call :: h2)))
+      nth_error (r_calls (run_with cpr sreq fuel is_lazy lat prl net0 (h1 ++ Call :: h2)))
                 (count_calls h1) = Some (b, Response, a).
 Proof. exact recovers_without_rebuild. Qed.
 
@@ -128,9 +142,9 @@ Proof. exact recovers_without_rebuild. Qed.
    the reason of the refusal in force, not an older one; a handshake error only while the peer
    closes at once *)
 Theorem c14_unavailable_only_while_unreachable :
-  forall cpr sreq mkpr, stack_contract cpr sreq mkpr ->
-  forall fuel is_lazy lat net0, enough_fuel lat fuel -> forall h1 h2 c e,
-    nth_error (r_calls (run_with cpr sreq mkpr fuel is_lazy lat net0 (h1 ++ Call :: h2)))
+  forall cpr sreq, stack_contract cpr sreq ->
+  forall fuel is_lazy lat prl net0, enough_fuel lat prl fuel -> forall h1 h2 c e,
+    nth_error (r_calls (run_with cpr sreq fuel is_lazy lat prl net0 (h1 ++ Call :: h2)))
               (count_calls h1) = Some c ->
     rec_outcome c = ConnectErr e ->
     (net_after net0 h1 = Down (e_reason e) /\ e_kind e = Refused) \/
@@ -141,9 +155,9 @@ Proof. exact unavailable_only_while_unreachable. Qed.
    handshake's ConnectError (UNAVAILABLE) while the peer closes at once; while the peer is not
    HTTP/2 the connection is established and dies under the request (CANCELLED, as for a racy drop) *)
 Theorem c14_handshake_failure_outcome :
-  forall cpr sreq mkpr, stack_contract cpr sreq mkpr ->
-  forall fuel is_lazy lat net0, enough_fuel lat fuel -> forall h1 h2 c,
-    nth_error (r_calls (run_with cpr sreq mkpr fuel is_lazy lat net0 (h1 ++ Call :: h2)))
+  forall cpr sreq, stack_contract cpr sreq ->
+  forall fuel is_lazy lat prl net0, enough_fuel lat prl fuel -> forall h1 h2 c,
+    nth_error (r_calls (run_with cpr sreq fuel is_lazy lat prl net0 (h1 ++ Call :: h2)))
               (count_calls h1) = Some c -> quiescent h1 = true ->
     (net_after net0 h1 = UpDead ->
      rec_outcome c = Response \/
@@ -156,11 +170,11 @@ Proof. exact handshake_failure_outcome. Qed.
 
 (* off the quiescent points: at the latest the second call after the endpoint is reachable succeeds *)
 Theorem c14_recovers_after_racy_drop :
-  forall cpr sreq mkpr, stack_contract cpr sreq mkpr ->
-  forall fuel is_lazy lat net0, enough_fuel lat fuel -> forall h1 h2,
+  forall cpr sreq, stack_contract cpr sreq ->
+  forall fuel is_lazy lat prl net0, enough_fuel lat prl fuel -> forall h1 h2,
     built is_lazy net0 -> net_after net0 h1 = Up ->
     exists b a,
-      nth_error (r_calls (run_with cpr sreq mkpr fuel is_lazy lat net0 (h1 ++ Call :: Call :: h2)))
+      nth_error (r_calls (run_with cpr sreq fuel is_lazy lat prl net0 (h1 ++ Call :: Call :: h2)))
                 (S (count_calls h1)) = Some (b, Response, a).
 Proof. exact recovers_after_racy_drop. Qed.
 
@@ -172,30 +186,30 @@ Proof. exact recovers_after_racy_drop. Qed.
    [Calls k] does its own poll_ready, hence its own attempt, and gets exactly that attempt's
    failure (the records of a batch are consecutive entries of [r_calls]). *)
 Theorem c14_error_reported_once :
-  forall cpr sreq mkpr, stack_contract cpr sreq mkpr ->
-  forall fuel is_lazy lat net0, enough_fuel lat fuel -> forall h,
+  forall cpr sreq, stack_contract cpr sreq ->
+  forall fuel is_lazy lat prl net0, enough_fuel lat prl fuel -> forall h,
     Forall (fun c => forall e, rec_outcome c = ConnectErr e ->
                      rec_after c = rec_before c + 1 /\ e_attempt e = rec_after c)
-           (r_calls (run_with cpr sreq mkpr fuel is_lazy lat net0 h)) /\
-    StronglySorted N.lt (err_ids (r_calls (run_with cpr sreq mkpr fuel is_lazy lat net0 h))) /\
-    NoDup (err_ids (r_calls (run_with cpr sreq mkpr fuel is_lazy lat net0 h))) /\
+           (r_calls (run_with cpr sreq fuel is_lazy lat prl net0 h)) /\
+    StronglySorted N.lt (err_ids (r_calls (run_with cpr sreq fuel is_lazy lat prl net0 h))) /\
+    NoDup (err_ids (r_calls (run_with cpr sreq fuel is_lazy lat prl net0 h))) /\
     Forall (fun c => rec_outcome c <> WorkerClosed /\ forall e, rec_outcome c <> ServiceFailed e)
-           (r_calls (run_with cpr sreq mkpr fuel is_lazy lat net0 h)).
+           (r_calls (run_with cpr sreq fuel is_lazy lat prl net0 h)).
 Proof. exact error_reported_once. Qed.
 
 (* connector invocations = Idle -> Connecting transitions of the surviving Reconnect; they happen
    only inside calls (and once in an eager connect), at most one per call *)
 Theorem c14_attempts_counted :
-  forall cpr sreq mkpr, stack_contract cpr sreq mkpr ->
-  forall fuel is_lazy lat net0, enough_fuel lat fuel -> forall h,
+  forall cpr sreq, stack_contract cpr sreq ->
+  forall fuel is_lazy lat prl net0, enough_fuel lat prl fuel -> forall h,
     (built is_lazy net0 ->
-     r_i2c (run_with cpr sreq mkpr fuel is_lazy lat net0 h) =
-       Some (r_attempts (run_with cpr sreq mkpr fuel is_lazy lat net0 h))) /\
+     r_i2c (run_with cpr sreq fuel is_lazy lat prl net0 h) =
+       Some (r_attempts (run_with cpr sreq fuel is_lazy lat prl net0 h))) /\
     (built is_lazy net0 ->
      chained (if is_lazy then 0 else 1)
-             (r_calls (run_with cpr sreq mkpr fuel is_lazy lat net0 h))
-             (r_attempts (run_with cpr sreq mkpr fuel is_lazy lat net0 h))) /\
-    r_attempts (run_with cpr sreq mkpr fuel is_lazy lat net0 h)
+             (r_calls (run_with cpr sreq fuel is_lazy lat prl net0 h))
+             (r_attempts (run_with cpr sreq fuel is_lazy lat prl net0 h))) /\
+    r_attempts (run_with cpr sreq fuel is_lazy lat prl net0 h)
       <= (if is_lazy then 0 else 1) + N.of_nat (count_calls h).
 Proof. exact attempts_counted. Qed.
 
@@ -203,8 +217,8 @@ Proof. exact attempts_counted. Qed.
 (* the assumed contract is satisfiable: by the instance the correspondence run evaluates against
    the real stack, with the fuel [run] uses *)
 Example c14_contract_satisfiable :
-  stack_contract real_conn_poll_ready real_send_request real_mk_poll_ready /\
-  forall lat, enough_fuel lat (fuel_for lat).
+  stack_contract real_conn_poll_ready real_send_request /\
+  forall lat prl, enough_fuel lat prl (fuel_for lat prl).
 Proof. split; [exact real_stack_contract | exact fuel_for_enough]. Qed.
 
 (* a history that exercises everything: refusals (two calls, two distinct attempts), recovery, a
@@ -213,17 +227,17 @@ Example c14_history_example :
   let h1 := [Call; Call; Env ConnectSucceeds; Call; Env ConnectionDropped; Env (ConnectFails 9);
              Call; Env ConnectSucceeds] in
   built true (Down 3) /\ quiescent h1 = true /\ net_after (Down 3) h1 = Up /\
-  r_calls (run true 2 (Down 3) (h1 ++ [Call])) =
+  r_calls (run true 2 1 (Down 3) (h1 ++ [Call])) =
     [(0, ConnectErr (mkErr 1 3 Refused), 1); (1, ConnectErr (mkErr 2 3 Refused), 2); (2, Response, 3);
      (3, ConnectErr (mkErr 4 9 Refused), 4); (4, Response, 5)] /\
-  r_attempts (run true 2 (Down 3) (h1 ++ [Call])) = 5.
+  r_attempts (run true 2 1 (Down 3) (h1 ++ [Call])) = 5.
 Proof. repeat split; try reflexivity. left; reflexivity. Qed.
 
 (* queued calls: three calls queued while the endpoint refuses get the failures of three distinct
    attempts, one each; three queued while it accepts share the one connection the first one made *)
 Example c14_queued_calls_example :
   plain [Calls 3; Env ConnectSucceeds; Calls 3] = true /\
-  r_calls (run true 2 (Down 3) [Calls 3; Env ConnectSucceeds; Calls 3]) =
+  r_calls (run true 2 1 (Down 3) [Calls 3; Env ConnectSucceeds; Calls 3]) =
     [(0, ConnectErr (mkErr 1 3 Refused), 1); (1, ConnectErr (mkErr 2 3 Refused), 2);
      (2, ConnectErr (mkErr 3 3 Refused), 3);
      (3, Response, 4); (4, Response, 4); (4, Response, 4)].
@@ -236,19 +250,23 @@ Proof. split; reflexivity. Qed.
    panics; too little fuel reports a hang *)
 Example c14_excluded_outcomes_are_reachable :
   snd (call (new_reconnect true)) = CoPanic /\
-  fst (run_steps real_conn_poll_ready real_send_request real_mk_poll_ready 4 [Call; Call]
-         (mkChan (new_reconnect false) None) (mkWorld (Down 7) 0 0)) =
+  fst (run_steps real_conn_poll_ready real_send_request 4 [Call; Call]
+         (mkChan (new_reconnect false) None) (init_world (Down 7) 0 0)) =
     ([(0, ServiceFailed (mkErr 1 7 Refused), 1); (1, WorkerClosed, 1)],
      mkChan (mkRc (Connecting FutDone) None false false 1) (Some (mkErr 1 7 Refused))) /\
-  snd (pr_loop real_conn_poll_ready real_mk_poll_ready 4
-         (mkRc (Connecting FutDone) None false false 1) (mkWorld Up 0 1)) = PrPanic /\
-  snd (serve real_conn_poll_ready real_send_request real_mk_poll_ready 2
-         (mkChan (new_reconnect true) None) (mkWorld Up 5 0)) = OutOfFuel.
-Proof. repeat split; reflexivity. Qed.
+  snd (pr_loop real_conn_poll_ready 4
+         (mkRc (Connecting FutDone) None false false 1) (init_world Up 0 0)) = PrPanic /\
+  snd (serve real_conn_poll_ready real_send_request 2
+         (mkChan (new_reconnect true) None) (init_world Up 5 0)) = OutOfFuel /\
+  (* the connector refuses a call that was not preceded by a Ready poll_ready, accepts it after *)
+  make_service (init_world Up 0 0) = None /\
+  fst (mk_poll_ready (init_world Up 0 1)) = mkWorld Up 0 0 false 0 1 /\
+  make_service (fst (mk_poll_ready (init_world Up 0 0))) <> None.
+Proof. repeat split; try reflexivity. discriminate. Qed.
 
 (* the racy step: one CANCELLED, then recovery *)
 Example c14_racy_example :
-  map rec_outcome (r_calls (run true 0 Up [Call; EnvRacyDrop false; Call; Call])) =
+  map rec_outcome (r_calls (run true 0 2 Up [Call; EnvRacyDrop false; Call; Call])) =
     [Response; Canceled; Response] /\
   outcome_code Canceled = Some Code_Cancelled.
 Proof. split; reflexivity. Qed.
@@ -261,12 +279,13 @@ Example c14_handshake_failure_example :
   plain [Call; Env ConnectSucceedsDead; Call; Env ConnectSucceeds; Call] = true /\
   plain_net UpDead = true /\
   map (fun c => outcome_code (rec_outcome c))
-      (r_calls (run true 0 UpDead [Call; Env ConnectSucceedsGarbage; Call; Env ConnectSucceeds; Call])) =
+      (r_calls (run true 0 1 UpDead [Call; Env ConnectSucceedsGarbage; Call; Env ConnectSucceeds; Call])) =
     [Some Code_Unavailable; Some Code_Cancelled; None] /\
-  r_attempts (run true 0 UpDead [Call; Env ConnectSucceedsGarbage; Call; Env ConnectSucceeds; Call]) = 3.
+  r_attempts (run true 0 1 UpDead [Call; Env ConnectSucceedsGarbage; Call; Env ConnectSucceeds; Call]) = 3.
 Proof. repeat split; reflexivity. Qed.
 
 Print Assumptions c14_call_never_panics.
+Print Assumptions c14_connector_protocol_respected.
 Print Assumptions c14_call_definite.
 Print Assumptions c14_eager_initial_failure_immediate.
 Print Assumptions c14_recovers_without_rebuild.
